@@ -38,7 +38,7 @@ def genValidate (ca' : Ca) : Except Err (Signed Msg) :=
   match decode bytes with
   | none => .error (ca', .undecodable)
   | some sg =>
-    KM.Gen.CertAuth.verify_rfc6492 (H := Handle) (C := ChildRec) (M := Signed Msg) (ε := Err)
+    KM.Gen.C12.CertAuth.verify_rfc6492 (H := Handle) (C := ChildRec) (M := Signed Msg) (ε := Err)
       sg.body.sender
       (fun h => match lookup ca'.children h with
         | some c => .ok c
@@ -58,7 +58,7 @@ def genProcess (h : Handle) (sg : Signed Msg) : Except Err (Ca × Msg) :=
 
 /-- The generated entry point with the model plugged in. -/
 def genRfc6492 : Except Err (Ca × Signed Msg) :=
-  KM.Gen.CaManager.rfc6492 (H := Handle) (CA := Ca) (Q := Signed Msg) (M := Ca × Msg) (B := Ca × Signed Msg)
+  KM.Gen.C12.CaManager.rfc6492 (H := Handle) (CA := Ca) (Q := Signed Msg) (M := Ca × Msg) (B := Ca × Signed Msg)
     (ε := Err)
     ca.handle "ta" (ca, .taNotRemote) (fun _ => .ok ca) (genValidate decode bytes)
     (genProcess ca) (fun m => m.2.payload matches .listResponse _)
@@ -74,7 +74,7 @@ def modelRfc6492 : Except Err (Ca × Signed Msg) :=
 /-- `CaManager::rfc6492` + `CertAuth::verify_rfc6492` as translated from the source = the model the
 C12 theorems are about, for every CA state, every decoder and every byte string. -/
 theorem gen_rfc6492_eq_model : genRfc6492 decode ca bytes = modelRfc6492 decode ca bytes := by
-  unfold genRfc6492 modelRfc6492 KM.Gen.CaManager.rfc6492 rfc6492
+  unfold genRfc6492 modelRfc6492 KM.Gen.C12.CaManager.rfc6492 rfc6492
   by_cases hta : ca.handle = "ta"
   · simp [hta]
   · simp only [hta, if_false]
@@ -82,7 +82,7 @@ theorem gen_rfc6492_eq_model : genRfc6492 decode ca bytes = modelRfc6492 decode 
     cases hd : decode bytes with
     | none => rfl
     | some sg =>
-      simp only [KM.Gen.CertAuth.verify_rfc6492]
+      simp only [KM.Gen.C12.CertAuth.verify_rfc6492]
       cases hl : lookup ca.children sg.body.sender with
       | none => rfl
       | some c =>
